@@ -259,7 +259,7 @@ def run(ctx):
                                                 "binary": run_binary(src, ["-O0"], inp_b, os.path.join(common.BUILD, "c01", "w"))}, found_input=True)
 
     # ---- generated programs
-    nprog = 170 if quick else 2500
+    nprog = 170 if quick else 1200
     levels = ["-O0", "-O3"] if quick else ["-O0", "-O1", "-O2", "-O3"]
     def progs():
         for i in range(nprog):
